@@ -258,7 +258,18 @@ class Spec(EvalableModel):
                     global_fanout *= p.get_fanout()
 
             orig: Component = self.arch.find(leaf.name)
-            c = leaf
+            # Scale factors apply to the declared values, not to values an earlier call already scaled
+            if orig._declared_costs is None:
+                orig._declared_costs = {
+                    "area": orig.area,
+                    "leak_power": orig.leak_power,
+                    "actions": {a.name: (a.energy, a.throughput) for a in orig.actions},
+                }
+            c = leaf._copy_for_component_modeling()
+            c.area = orig._declared_costs["area"]
+            c.leak_power = orig._declared_costs["leak_power"]
+            for a in c.actions:
+                a.energy, a.throughput = orig._declared_costs["actions"][a.name]
             prev_log = list(c.component_modeling_log)
             c.component_modeling_log.clear()
             if area:
